@@ -39,6 +39,31 @@ func main() {
 		rounds, _ = strconv.Atoi(os.Args[1])
 	}
 	envs := []interface{}{c08lib.EnvA(), c08lib.EnvB(), c08lib.EnvP()}
+	// (0) cold process: the very first runs of this process are concurrent (state the library initialises or grows on
+	// first use is written by several goroutines at once); results are compared with the solo results computed below
+	coldProgs, err := c08lib.CompileAll(c08lib.Env{})
+	if err != nil {
+		fmt.Println("RACER-SETUP-FAILED", err)
+		os.Exit(3)
+	}
+	cold := make([][]string, G)
+	{
+		var wg sync.WaitGroup
+		start := make(chan struct{})
+		for g := 0; g < G; g++ {
+			wg.Add(1)
+			go func(g int) {
+				defer wg.Done()
+				<-start
+				for k := range coldProgs {
+					pi := (k + g) % len(coldProgs)
+					cold[g] = append(cold[g], fmt.Sprintf("%d:%s", pi, c08lib.Result(vm.Run(coldProgs[pi], envs[g%2]))))
+				}
+			}(g)
+		}
+		close(start)
+		wg.Wait()
+	}
 	// solo results
 	solo := make([][]string, len(envs))
 	ref, err := c08lib.CompileAll(c08lib.Env{})
@@ -53,6 +78,18 @@ func main() {
 	}
 	mismatch := 0
 	var mu sync.Mutex
+	for g := range cold {
+		for _, line := range cold[g] {
+			var pi int
+			fmt.Sscanf(line, "%d:", &pi)
+			if want := fmt.Sprintf("%d:%s", pi, solo[g%2][pi]); line != want {
+				mismatch++
+				if mismatch < 5 {
+					fmt.Printf("RACER-MISMATCH cold run of program %q: got %s, solo %s\n", c08lib.Source(pi), line, want)
+				}
+			}
+		}
+	}
 	// (1) shared programs, cold (fresh instance per round) and warm
 	for r := 0; r < rounds; r++ {
 		progs, err := c08lib.CompileAll(c08lib.Env{})
@@ -79,6 +116,36 @@ func main() {
 							}
 							mu.Unlock()
 						}
+					}
+				}
+			}(g)
+		}
+		close(start)
+		wg.Wait()
+	}
+	// (1b) one program with a run-time pattern, run with 150 distinct patterns (a table of compiled patterns kept by the
+	// library would be filled, evicted and reset by several goroutines at once)
+	{
+		p, err := expr.Compile(`S matches Pat`, expr.Env(c08lib.Env{}))
+		if err != nil {
+			fmt.Println("RACER-SETUP-FAILED", err)
+			os.Exit(3)
+		}
+		var wg sync.WaitGroup
+		start := make(chan struct{})
+		for g := 0; g < G; g++ {
+			wg.Add(1)
+			go func(g int) {
+				defer wg.Done()
+				<-start
+				for k := 0; k < 150; k++ {
+					e := c08lib.EnvA()
+					e.Pat = fmt.Sprintf("^a.{%d}b|X%d", (k+g)%150, k%150)
+					out, err := vm.Run(p, e)
+					if want := len(e.S)-2 == (k+g)%150; err != nil || out != want {
+						mu.Lock()
+						mismatch++
+						mu.Unlock()
 					}
 				}
 			}(g)
@@ -114,6 +181,10 @@ func main() {
 			{`PtrMeth() + I`, []expr.Option{sharedStructOpt}},
 			{`undefinedFour == nil`, []expr.Option{sharedStructOpt, sharedUndef}},
 			{`len(5..1) + I`, []expr.Option{sharedStructOpt}},
+			{`count(A, {# in 1..3}) + len(filter(A, {# in [1, 2, 3]}))`, []expr.Option{sharedStructOpt}},
+			{`all(A, {any(A, {# > 1}) and # in 0..9})`, []expr.Option{sharedMapEnvOpt}},
+			{`S + "literal number one" + "x"`, []expr.Option{sharedStructOpt}},
+			{`S + "another, different literal" + "\u00e9\n"`, []expr.Option{sharedMapEnvOpt}},
 			{`I + len(S) + len(3..2)`, []expr.Option{sharedStructOpt}},
 			{`count(9..2, {# > 0}) == 0 ? "none" : "some"`, []expr.Option{sharedMapEnvOpt}},
 			{`                 all(7..6, {# != I})`, []expr.Option{sharedMapEnvOpt}},
